@@ -114,10 +114,17 @@ def render(case, rot=0):
         elif t == 'import':
             out.append(IMPORT_LINE)
         elif t == 'deco_extra':
-            out.append(ind + '@_deco')
+            if item['deco'] in ('setter', 'deleter') and (rot + it) % 2:
+                # the further decorator stands BELOW the .setter / .deleter line (as in @x.setter / @abstractmethod / def x)
+                out.append(ind + '@%s.%s' % (item_name(items, it), item['deco']))
+            else:
+                out.append(ind + '@_deco')
         elif t == 'deco':
             d = item['deco']
             name = item_name(items, it)
+            if d in ('setter', 'deleter') and item['nd'] >= 1 and (rot + it) % 2:
+                out.append(ind + '@_deco')
+                continue
             out.append(ind + {'plain': '@_deco', 'property': '@property', 'setter': '@%s.setter' % name, 'deleter': '@%s.deleter' % name,
                               'static': '@staticmethod', 'classm': '@classmethod',
                               # a wraps-style decorator defined in this module, imported from another one, or from the standard library
